@@ -87,6 +87,16 @@ func (h *Hop) Close() {
 	}
 }
 
+// Shutdown stops listening (later dials are refused) and closes every connection, so that transparent
+// retries of the proxy's transport cannot park a request on a connection nobody serves.
+func (h *Hop) Shutdown() {
+	h.Poll()
+	h.Srv.L.Close()
+	for _, c := range h.Conns {
+		c.Close()
+	}
+}
+
 // Clip shortens long byte strings for messages.
 func Clip(b []byte) string {
 	if len(b) > 600 {
